@@ -61,7 +61,7 @@ __CPROVER_requires(ssl == &g_ssl && type == g_in.type && hsType == g_in.hsType &
 __CPROVER_requires(g_c == g_out + g_in.used && g_in.used <= OUTN && g_msgSize == g_in.messageSize && gh.calls == 0)
 POSTS(ENSURES_CLAUSE)
 CANARY_CLAUSE(__CPROVER_return_value != PS_SUCCESS || gh.calls == 0)
-__CPROVER_assigns(g_msgSize, g_padLen, g_encStart, g_c, gh, __CPROVER_object_whole(g_out), g_ssl.msn)
+__CPROVER_assigns(g_msgSize, g_padLen, g_encStart, g_c, gh, __CPROVER_object_whole(g_out), g_ssl.msn, g_ssl.encState, g_ssl.seqDelay)
 ;
 
 #include "matrixssl/hsNegotiateVersion.c"
